@@ -1,6 +1,6 @@
 SPECIFICATION Spec
 CONSTANTS
   ManyLimit = 12
-  Stride = 8
+  Stride = 10
 INVARIANTS Emit
 CHECK_DEADLOCK FALSE
